@@ -79,4 +79,23 @@ def handleEv (args : List String) : String :=
     ",".intercalate outs
   | _ => "bad-expr"
 
+/-- `evd <i> <tokens> | <env> ; ...` evaluates the Lean-computed derivative `D i e` -/
+def handleEvd (args : List String) : String :=
+  match args with
+  | i :: rest =>
+    match i.toNat? with
+    | some i =>
+      let toks := rest.takeWhile (· != "|")
+      let envs := (" ".intercalate ((rest.dropWhile (· != "|")).drop 1)).splitOn ";"
+      match parse toks with
+      | some (e, []) =>
+        let de := D i e
+        ",".intercalate (envs.map (fun s =>
+          match floatsOfHex s.trimAscii.toString with
+          | some l => hexOfFloat (evalF (envOf l) de)
+          | none => "bad-env"))
+      | _ => "bad-expr"
+    | none => "bad-op"
+  | _ => "bad-op"
+
 end Andes.Expr
